@@ -8,6 +8,7 @@ import (
 
 	"go.minekube.com/common/minecraft/component"
 
+	"go.minekube.com/gate/pkg/edition/java/profile"
 	"go.minekube.com/gate/pkg/edition/java/proto/packet/chat"
 	"go.minekube.com/gate/pkg/edition/java/proto/packet/tablist/legacytablist"
 	"go.minekube.com/gate/pkg/edition/java/proto/packet/tablist/playerinfo"
@@ -223,6 +224,18 @@ func (t *TabList) add(entry tablist.Entry) (*playerinfo.Upsert, error) {
 	t.EntriesByID[playerInfoEntry.ProfileID] = entry
 	t.Unlock()
 
+	if previousEntry != nil && !sameProfile(previousEntry.Profile(), entry.Profile()) {
+		// A client keeps the profile (name, skin) of an entry it already has, whatever is sent
+		// for that id: remove the entry first so that the new profile is added like a new entry.
+		err := t.Viewer.BufferPacket(&playerinfo.Remove{
+			PlayersToRemove: []uuid.UUID{playerInfoEntry.ProfileID},
+		})
+		if err != nil {
+			return nil, err
+		}
+		previousEntry = nil
+	}
+
 	if previousEntry != nil {
 		// we should merge entries here
 		if equalLocked(previousEntry, entry) {
@@ -301,6 +314,19 @@ func (t *TabList) add(entry tablist.Entry) (*playerinfo.Upsert, error) {
 			playerInfoEntry,
 		},
 	}, nil
+}
+
+// sameProfile reports whether two profiles look the same to a client.
+func sameProfile(a, b profile.GameProfile) bool {
+	if a.ID != b.ID || a.Name != b.Name || len(a.Properties) != len(b.Properties) {
+		return false
+	}
+	for i := range a.Properties {
+		if a.Properties[i] != b.Properties[i] {
+			return false
+		}
+	}
+	return true
 }
 
 func (t *TabList) hasEntry(id uuid.UUID) bool {
